@@ -35,5 +35,7 @@ namespace verif
         joint_array<jelem> arr(n, o);
         joint_array<jelem> arr2(n, arr[0], o);
         joint_array<jelem> arr3(arr, o);
+        const jelem* cb = &arr[0];
+        joint_array<jelem> arr4(cb, cb + n, o);
     }
 } // namespace verif
